@@ -21,6 +21,7 @@ import (
 	"errors"
 	"fmt"
 	"os"
+	"runtime/debug"
 	"runtime/pprof"
 	"sort"
 	"strings"
@@ -788,22 +789,6 @@ func (e *explorer) observe(ops []opSpec, in *inst, prev []int8, s *stats) (kind,
 			}
 		}
 	}
-	// operations that must be refused and change nothing
-	long := make([]byte, mpt.MaxKeyLength+1)
-	for _, bad := range []struct {
-		n    string
-		k, v []byte
-	}{{"empty key", []byte{}, []byte{1}}, {"too long key", long, []byte{1}}, {"nil value", u.Keys[0], nil}, {"too long value", u.Keys[0], tooBigVal}} {
-		if err := in.tr.Put(bad.k, bad.v); err == nil {
-			return "invalid-put-accepted", "Put with " + bad.n + " returns no error"
-		}
-	}
-	if _, err := in.tr.Get(long); err == nil {
-		return "invalid-get-accepted", "Get with too long key returns no error"
-	}
-	if in.tr.StateRoot() != root {
-		return "root-changed-by-refused-put", "StateRoot differs after refused Puts"
-	}
 	// range search on the live trie (last: see assertReadsAfterFind)
 	if !in.dirty || assertReadsAfterFind {
 		if kind, detail = findsOf(in.tr, u, c, s, ""); kind != "" {
@@ -897,6 +882,19 @@ func (e *explorer) observe(ops []opSpec, in *inst, prev []int8, s *stats) (kind,
 			}
 		}
 	}
+	// an operation that is refused (returns an error) changes nothing
+	long := make([]byte, mpt.MaxKeyLength+1)
+	for _, bad := range []struct {
+		n    string
+		k, v []byte
+	}{{"empty key", []byte{}, []byte{1}}, {"too long key", long, []byte{1}}, {"nil value", u.Keys[0], nil}, {"too long value", u.Keys[0], tooBigVal}} {
+		if err := tr2.Put(bad.k, bad.v); err != nil && tr2.StateRoot() != root {
+			return "refused-put-changed-root", "Put with " + bad.n + " returns an error and changes StateRoot"
+		}
+	}
+	if err := tr2.Delete(long); err != nil && tr2.StateRoot() != root {
+		return "refused-delete-changed-root", "Delete with too long key returns an error and changes StateRoot"
+	}
 	for i, k := range u.Keys {
 		v, err := ts.Get(append([]byte{byte(storage.STStorage)}, k...))
 		if (c[i] >= 0) != (err == nil) || (err == nil && !bytes.Equal(v, u.Vals[c[i]])) {
@@ -917,7 +915,7 @@ func (e *explorer) node(ops []opSpec, s *stats) bool {
 	last := ops[len(ops)-1]
 	report := func(kind, detail string, in *inst) {
 		names := opNames(u, ops)
-		key := fmt.Sprintf("%s:%s:%s:%s", kind, e.part, modeName(e.mode), strings.Join(names, ","))
+		key := fmt.Sprintf("%s:%s:%s", kind, modeName(e.mode), strings.Join(names, ","))
 		rec := caseRec{Part: e.part, Mode: byte(e.mode), Ops: ops, Names: names, Broken: kind, Detail: detail}
 		if in != nil {
 			rec.Content = u.show(in.c)
@@ -939,6 +937,11 @@ func (e *explorer) node(ops []opSpec, s *stats) bool {
 		return false
 	}
 	kind, detail := e.observe(ops, in, prev, s)
+	if kind == "fresh-build" {
+		// a property of the content, not of this history
+		e.g.r.Violation("fresh-build:"+u.show(in.c), caseRec{Part: e.part, Mode: byte(e.mode), Ops: ops, Names: opNames(u, ops), Broken: kind, Detail: detail, Content: u.show(in.c)})
+		return false
+	}
 	if kind != "" {
 		report(kind, detail, in)
 		return false
@@ -1321,6 +1324,9 @@ func (g *global) partC(sc tamperScenario, u *uni) {
 		root := u.ref(c).root
 		nproofs.Inc()
 		check := func(name string, R util.Uint256, mm map[string][]byte, q [][]byte, cshow string) {
+			if r.TooMany() {
+				return
+			}
 			s.tamperLists++
 			keys := askKeys
 			if strings.HasPrefix(name, "flip") || strings.Contains(name, "pool[") {
@@ -1585,12 +1591,14 @@ func allContents(u *uni, keys []int, vals []int8) [][]int8 {
 }
 
 type job struct {
-	name string
-	run  func(s *stats)
+	name  string
+	phase int // 1: histories of one or two steps (run first, so that the first counterexample is short)
+	run   func(s *stats)
 }
 
 func TestCheck(t *testing.T) {
 	r := vk.Start("C10", "model_checking", 100*time.Second, 19*time.Minute)
+	debug.SetMaxStack(128 << 20) // a runaway recursion in the subject should die quickly
 	u := universe()
 	g := &global{r: r, s: newStats(), qbest: map[string]*queryCase{}, qcount: map[string]int64{}}
 	if r.Replay != "" {
@@ -1649,15 +1657,26 @@ func TestCheck(t *testing.T) {
 		e := &explorer{g: g, u: u, mode: mode, part: part}
 		for _, o1 := range alpha {
 			o1 := o1
-			jobs = append(jobs, job{part, func(s *stats) { e.node([]opSpec{o1}, s) }})
-		}
-		if depth < 2 {
-			return
+			jobs = append(jobs, job{part, 1, func(s *stats) {
+				if !e.node([]opSpec{o1}, s) || depth < 2 {
+					return
+				}
+				for _, o2 := range alpha {
+					e.node([]opSpec{o1, o2}, s)
+				}
+			}})
 		}
 		for _, o1 := range alpha {
 			for _, o2 := range alpha {
 				pre := []opSpec{o1, o2}
-				jobs = append(jobs, job{part, func(s *stats) { e.dfs(pre, alpha, depth, s) }})
+				jobs = append(jobs, job{part, 2, func(s *stats) {
+					if depth < 3 {
+						return
+					}
+					for _, o3 := range alpha {
+						e.dfs(append(pre[:2:2], o3), alpha, depth, s)
+					}
+				}})
 			}
 		}
 		bounds[part+"_"+modeName(mode)] = fmt.Sprintf("alphabet %d ops, depth %d", len(alpha), depth)
@@ -1678,9 +1697,16 @@ func TestCheck(t *testing.T) {
 		e := &explorer{g: g, u: u, mode: mpt.ModeAll, part: part}
 		bases := allBatches(len(u.Keys), keys, []int8{0, 2, 3})
 		seconds := allBatches(len(u.Keys), keys, []int8{0, 1, 2, 3})
+		jobs = append(jobs, job{part, 1, func(s *stats) {
+			for _, b := range seconds {
+				if batchSize(b) > 0 {
+					e.node([]opSpec{b}, s)
+				}
+			}
+		}})
 		for _, b1 := range bases {
 			b1 := b1
-			jobs = append(jobs, job{part, func(s *stats) {
+			jobs = append(jobs, job{part, 2, func(s *stats) {
 				if batchSize(b1) > 0 {
 					if !e.node([]opSpec{b1}, s) {
 						return
@@ -1724,7 +1750,7 @@ func TestCheck(t *testing.T) {
 					continue
 				}
 				pre := []opSpec{b1, b2}
-				jobs = append(jobs, job{part, func(s *stats) {
+				jobs = append(jobs, job{part, 2, func(s *stats) {
 					for _, b3 := range bs {
 						if batchSize(b3) == 0 {
 							continue
@@ -1756,34 +1782,42 @@ func TestCheck(t *testing.T) {
 	if !want("A") && !want("B") {
 		jobs = nil
 	}
-	// round-robin over the parts, so that a run cut by the deadline has touched all of them
-	{
+	// phase 1 first; then round-robin over the parts, so that a run cut by the
+	// deadline has touched all of them
+	before := r.NViolations()
+	for phase := 1; phase <= 2; phase++ {
+		if phase == 2 && r.NViolations() > before {
+			r.Capped() // short counterexamples exist: longer histories are not explored
+			break
+		}
 		var order []string
 		by := map[string][]job{}
 		for _, j := range jobs {
+			if j.phase != phase {
+				continue
+			}
 			if _, ok := by[j.name]; !ok {
 				order = append(order, j.name)
 			}
 			by[j.name] = append(by[j.name], j)
 		}
-		jobs = jobs[:0:0]
+		var pj []job
 		for more := true; more; {
 			more = false
 			for _, n := range order {
 				if l := by[n]; len(l) > 0 {
-					jobs = append(jobs, l[0])
+					pj = append(pj, l[0])
 					by[n] = l[1:]
 					more = true
 				}
 			}
 		}
+		r.Parallel(len(pj), func(i int) {
+			s := newStats()
+			pj[i].run(s)
+			g.merge(s)
+		})
 	}
-	r.Parallel(len(jobs), func(i int) {
-		s := newStats()
-		jobs[i].run(s)
-		g.merge(s)
-	})
-
 	pprof.StopCPUProfile()
 	s := g.s
 	classes := map[string]int64{}
